@@ -81,3 +81,6 @@ Fixpoint inner_ok (o i : list Z) : bool :=
   | x :: o', u :: i' => ((u =? -1) || (u =? x)) && inner_ok o' i'
   | _, _ => false
   end.
+
+(* short constructor used by generated case files *)
+Definition J a f t s e := {| j_atom := a; j_from := f; j_to := t; j_start := s; j_stop := e |}.
